@@ -542,3 +542,239 @@ theorem c07_ra_range_mod (x : ℝ) : 0 ≤ C07.npMod x (2 * Real.pi) ∧ C07.npM
 example : (0 : ℝ) ≤ uniformRA 1 (5 / 2) (1 / 2) ∧ uniformRA (1 : ℝ) (5 / 2) (1 / 2) < 5 / 2 := by
   have := c07_ra_range_uniform 1 (5 / 2) (1 / 2) (by norm_num) (by norm_num) (by norm_num)
   constructor <;> linarith [this.1, this.2]
+
+
+/-! ### review round: handles, unblinding, documented fields per method, shared columns, evaluation -/
+
+/-- **The handle an operation returns is a generated container**, never a stored one — so `HandlesOK` holds for every
+handle that was returned by an earlier operation. -/
+theorem c07_returned_handle_generated (n0 : Nat) (r : Roles) (gop : GOp) (hr : RolesOK n0 r) (hh : HandlesOK r gop) :
+    ∀ h, (compile n0 r gop).2.2 = some h → h ≠ r.exp ∧ h ≠ r.mc := by
+  have big : ∀ x, n0 ≤ x → x ≠ r.exp ∧ x ≠ r.mc := fun x hx => ⟨by have := hr.1; omega, by have := hr.2.1; omega⟩
+  have trialEv : ∀ (m e : Nat) (cfg : TrialCfg), n0 ≤ m → (e ≠ r.exp ∧ e ≠ r.mc) →
+      (trialOps m e cfg).2 ≠ r.exp ∧ (trialOps m e cfg).2 ≠ r.mc := by
+    intro m e cfg hm he
+    rcases (trialOps_targets m e cfg).2 with h | h <;> rw [h]
+    · exact he
+    · exact big m hm
+  intro h hh'
+  cases gop with
+  | genFixed _ _ => simp only [compile, Option.some.injEq] at hh'; subst hh'; exact big _ (le_refl _)
+  | genMC keep presel draw scr vals ef =>
+    simp only [compile, Option.some.injEq] at hh'; subst hh'
+    exact big _ (cachePlan_spec n0 r keep presel hr).2.2
+  | genComposite keep scr vals rates presel draw ef =>
+    simp only [compile, Option.some.injEq] at hh'; subst hh'
+    exact big _ (compositePlan_spec n0 presel draw).2
+  | genSigMC _ _ _ _ => simp only [compile, Option.some.injEq] at hh'; subst hh'; exact big _ (by omega)
+  | genSig _ => simp only [compile, Option.some.injEq] at hh'; subst hh'; exact big _ (le_refl _)
+  | merge b s => simp only [compile, Option.some.injEq] at hh'; subst hh'; exact hh
+  | initTrial e cfg => simp only [compile, Option.some.injEq] at hh'; subst hh'; exact trialEv n0 e cfg (le_refl _) hh
+  | unblind cfg =>
+    simp only [compile, Option.some.injEq] at hh'; subst hh'
+    exact trialEv (n0 + 1) n0 cfg (by omega) (big n0 (le_refl _))
+  | unblindAdopt _ => exact hh.elim
+  | evaluate fields =>
+    simp only [compile] at hh'
+    split at hh' <;> cases hh'
+
+/-- **Unblinding sees the original data**: after any history of pseudo-data operations, `unblind` (no static fields, no
+selection, no index field) evaluates a container that reads exactly like the experimental data as they were loaded. -/
+theorem c07_unblind_sees_original (g : G) (ts : List Table) (good : Good g.st ts) (hr : RolesOK g.st.conts.length g.roles)
+    (gops : List GOp) (hh : ∀ gop ∈ gops, HandlesOK g.roles gop) (t : Table) (h0 : viewAt g.st g.roles.exp = .ok t)
+    (hne : t.cols ≠ []) :
+    viewAt (gstep (grun g gops) (.unblind ⟨[], none, none, []⟩)).1.st (grun g gops).st.conts.length = .ok t := by
+  obtain ⟨h1, _, h3, _, ts', good'⟩ := c07_frame g ts good hr gops hh
+  have hv : viewAt (grun g gops).st (grun g gops).roles.exp = .ok t := by rw [h3, h1]; exact h0
+  rw [view_eq good'] at hv
+  have htc : ts'[(grun g gops).roles.exp]? = some t := getT_ok hv
+  have hstep : (gstep (grun g gops) (.unblind ⟨[], none, none, []⟩)).1.st = (stepH (grun g gops).st (.copy (grun g gops).roles.exp none)).1 := by
+    simp [gstep, compile, trialOps, setItems, runH]
+  rw [hstep]
+  have hs := step_refines good' (.copy (grun g gops).roles.exp none)
+  rw [view_eq hs.1, c16_copy_eq ts' _ t htc hne, good'.len]
+  simp [getT]
+
+/-- the assignments of a scrambling method are assignments to its documented fields -/
+theorem c07_scrSets_documented (m : Scr) (vals : List Col) : ∀ n ∈ (scrSets (some m) vals).map (·.1), n ∈ documented m := by
+  intro n hn
+  simp only [scrSets, List.mem_map] at hn
+  obtain ⟨p, hp, rfl⟩ := hn
+  exact (List.of_mem_zip hp).1
+
+/-- **Scrambling by each method changes only the fields that method documents** (`ra` | `time, ra` | `time, ra, dec`):
+the background generated by `FixedScrambledExpDataI3BkgGenMethod` with method `m` has the length of the stored data and every
+field outside `documented m` is the stored column. -/
+theorem c07_scramble_method (ts : List Table) (e : Nat) (t : Table) (m : Scr) (vals : List Col)
+    (h : ts[e]? = some t) (hne : t.cols ≠ []) :
+    ∃ t', (runT ts ([.copy e none] ++ setItems ts.length (scrSets (some m) vals)))[ts.length]? = some t' ∧ t'.len = t.len ∧
+      ∀ n, n ∉ documented m → t'.cols.lookup n = t.cols.lookup n := by
+  obtain ⟨t', h1, h2, h3⟩ := c07_scramble_only_documented_fields ts e t (scrSets (some m) vals) h hne
+  exact ⟨t', h1, h2, fun n hn => h3 n (fun hmem => hn (c07_scrSets_documented m vals n hmem))⟩
+
+example : documented .time = [2, 0, 1] ∧ documented .uniformRA = [0] := ⟨rfl, rfl⟩
+
+namespace C07
+theorem refines_rebind_run : ∀ (ops : List Op) (s : St) (ts : List Table), GoodS s ts → (∀ op ∈ ops, ¬ IsSetSel op) →
+    GoodS (runH s ops) (runT ts ops) := by
+  intro ops
+  induction ops with
+  | nil => intro s ts g _; exact g
+  | cons op ops ih =>
+    intro s ts g h
+    exact ih _ _ (step_refines_rebind g op (h op List.mem_cons_self)).1 (fun o ho => h o (List.mem_cons_of_mem _ ho))
+
+/-- operations that contain no write-through (`set_selection`): everything except the MC signal generator -/
+def Rebinding : GOp → Prop
+  | .genSigMC _ _ _ _ => False
+  | _ => True
+
+theorem setItems_rebind {c : Nat} {sets : List (Name × Col)} : ∀ op ∈ setItems c sets, ¬ IsSetSel op := by
+  intro op h
+  simp only [setItems, List.mem_map] at h
+  obtain ⟨p, _, rfl⟩ := h
+  exact fun hh => hh
+
+theorem sortOps_rebind {c : Nat} {idx : Option (Name × List Nat)} : ∀ op ∈ sortOps c idx, ¬ IsSetSel op := by
+  intro op h
+  cases idx with
+  | none => simp [sortOps] at h
+  | some p => obtain ⟨n, perm⟩ := p; simp only [sortOps, List.mem_singleton] at h; subst h; exact fun hh => hh
+
+theorem trialOps_rebind (n0 e : Nat) (cfg : TrialCfg) : ∀ op ∈ (trialOps n0 e cfg).1, ¬ IsSetSel op := by
+  intro op h
+  unfold trialOps at h
+  cases hs : cfg.sel with
+  | none =>
+    rw [hs] at h
+    cases hi : cfg.index with
+    | none =>
+      rw [hi] at h
+      simp only [List.mem_append] at h
+      rcases h with h | h <;> exact setItems_rebind op h
+    | some idx =>
+      rw [hi] at h
+      simp only [List.mem_append, List.mem_singleton] at h
+      rcases h with ((h | h) | h) | h
+      · exact setItems_rebind op h
+      · subst h; exact fun hh => hh
+      · exact sortOps_rebind op h
+      · exact setItems_rebind op h
+  | some sel =>
+    rw [hs] at h
+    simp only [List.mem_append, List.mem_singleton] at h
+    rcases h with ((h | h) | h) | h
+    · exact setItems_rebind op h
+    · subst h; exact fun hh => hh
+    · exact sortOps_rebind op h
+    · exact setItems_rebind op h
+
+theorem compile_rebind (n0 : Nat) (r : Roles) (gop : GOp) (hg : Rebinding gop) : ∀ op ∈ (compile n0 r gop).1, ¬ IsSetSel op := by
+  intro op hop
+  cases gop with
+  | genFixed scr vals =>
+    simp only [compile, List.mem_append, List.mem_singleton] at hop
+    rcases hop with h | h
+    · subst h; exact fun hh => hh
+    · exact setItems_rebind op h
+  | genMC keep presel draw scr vals ef =>
+    simp only [compile, List.mem_append, List.mem_singleton] at hop
+    rcases hop with ((h | h) | h) | h
+    · unfold cachePlan at h
+      cases hc : r.cache with
+      | some c => rw [hc] at h; cases h
+      | none =>
+        rw [hc] at h
+        cases presel with
+        | none =>
+          simp only [List.mem_cons, List.not_mem_nil, or_false] at h
+          rcases h with rfl | rfl <;> exact fun hh => hh
+        | some sel =>
+          simp only [List.mem_cons, List.not_mem_nil, or_false] at h
+          rcases h with rfl | rfl | rfl <;> exact fun hh => hh
+    · subst h; exact fun hh => hh
+    · exact setItems_rebind op h
+    · subst h; exact fun hh => hh
+  | genComposite keep scr vals rates presel draw ef =>
+    simp only [compile, List.mem_append, List.mem_singleton] at hop
+    rcases hop with (((h | h) | h) | h) | h
+    · subst h; exact fun hh => hh
+    · exact setItems_rebind op h
+    · exact setItems_rebind op h
+    · unfold compositePlan at h
+      cases presel with
+      | none =>
+        simp only [List.mem_cons, List.not_mem_nil, or_false] at h
+        rcases h with rfl | rfl <;> exact fun hh => hh
+      | some sel =>
+        simp only [List.mem_cons, List.not_mem_nil, or_false] at h
+        rcases h with rfl | rfl | rfl <;> exact fun hh => hh
+    · subst h; exact fun hh => hh
+  | genSigMC _ _ _ _ => exact hg.elim
+  | genSig cols => simp only [compile, List.mem_singleton] at hop; subst hop; exact fun hh => hh
+  | merge b s => simp only [compile, List.mem_singleton] at hop; subst hop; exact fun hh => hh
+  | initTrial e cfg => exact trialOps_rebind n0 e cfg op (by simpa [compile] using hop)
+  | unblind cfg =>
+    simp only [compile, List.mem_append, List.mem_singleton] at hop
+    rcases hop with h | h
+    · subst h; exact fun hh => hh
+    · exact trialOps_rebind _ _ cfg op h
+  | unblindAdopt cfg => exact trialOps_rebind n0 r.exp cfg op (by simpa [compile] using hop)
+  | evaluate fields =>
+    simp only [compile] at hop
+    cases hev : r.events with
+    | none => rw [hev] at hop; cases hop
+    | some ev => rw [hev] at hop; exact setItems_rebind op hop
+end C07
+
+/-- **Frame property for data sets whose columns share arrays.**  The stored data need not satisfy "no location in two
+slots" (loaders use `copy=False`, `exp['a'] = exp['b']` binds one array twice): from any state that merely *represents*
+tables (`GoodS`), after any history of pseudo-data operations that only rebind — everything except the MC signal generator,
+whose `set_selection` is covered by `c07_frame` under `Good` — `data.exp` and `data.mc` read exactly as before. -/
+theorem c07_frame_shared (g : G) (ts : List Table) (good : GoodS g.st ts) (hr : RolesOK g.st.conts.length g.roles)
+    (gops : List GOp) (hh : ∀ gop ∈ gops, HandlesOK g.roles gop ∧ C07.Rebinding gop) :
+    viewAt (grun g gops).st g.roles.exp = viewAt g.st g.roles.exp ∧
+    viewAt (grun g gops).st g.roles.mc = viewAt g.st g.roles.mc := by
+  induction gops generalizing g ts with
+  | nil => exact ⟨rfl, rfl⟩
+  | cons gop gops ih =>
+    obtain ⟨hok, hreb⟩ := hh gop List.mem_cons_self
+    obtain ⟨h1, h2, h3, h4⟩ := c07_compile_targets g.st.conts.length g.roles gop hr hok
+    have good' : GoodS (gstep g gop).1.st (runT ts (compile g.st.conts.length g.roles gop).1) :=
+      C07.refines_rebind_run _ _ _ good (C07.compile_rebind _ _ gop hreb)
+    have he := C07.frame_ops (compile g.st.conts.length g.roles gop).1 ts g.roles.exp (by rw [← good.len]; exact hr.1) (fun op hop => (h1 op hop).1)
+    have hm := C07.frame_ops (compile g.st.conts.length g.roles gop).1 ts g.roles.mc (by rw [← good.len]; exact hr.2.1) (fun op hop => (h1 op hop).2)
+    have hr' : RolesOK (gstep g gop).1.st.conts.length (gstep g gop).1.roles := by
+      refine h4 _ ?_
+      show g.st.conts.length ≤ (runH g.st (compile g.st.conts.length g.roles gop).1).conts.length
+      have hl : (runH g.st (compile g.st.conts.length g.roles gop).1).conts.length = _ := good'.len
+      rw [hl, good.len]
+      exact C07.runT_length_le _ _
+    have re : (gstep g gop).1.roles.exp = g.roles.exp := h2
+    have rm : (gstep g gop).1.roles.mc = g.roles.mc := h3
+    have hh' : ∀ gop' ∈ gops, HandlesOK (gstep g gop).1.roles gop' ∧ C07.Rebinding gop' := by
+      intro gop' hg
+      obtain ⟨a, b⟩ := hh gop' (List.mem_cons_of_mem _ hg)
+      refine ⟨?_, b⟩
+      cases gop' <;> simp only [HandlesOK, re, rm] at a ⊢ <;> exact a
+    obtain ⟨i1, i2⟩ := ih (gstep g gop).1 _ good' hr' hh'
+    simp only [grun]
+    constructor
+    · rw [← re, i1, re, view_eqS good', view_eqS good]; unfold getT; rw [he]
+    · rw [← rm, i2, rm, view_eqS good', view_eqS good]; unfold getT; rw [hm]
+
+
+/-- the pre-fix `unblind` followed by an evaluation: the global-fit-parameter data field of the evaluation is assigned
+into the stored experimental data as well -/
+example : (viewAt (grun C07.demoG [.unblindAdopt C07.demoCfgAdopt, .evaluate [(8, ⟨.f64, [1, 1, 1]⟩)]]).st 0).toOption.map (·.keys) =
+    some [3, 0, 7, 8] := by decide
+
+/-- non-vacuity of the frame theorem: a history whose container operations all succeed (fixed background, MC signal with a
+write-through `set_selection` on the generated container, merge, trial on the merged events with an index field, evaluation) -/
+example :
+    let g := grun C07.demoG [.genFixed .uniformRA [⟨.f32, [7, 8, 9]⟩], .genSigMC [2, 0] [(0, ⟨.f32, [1, 1]⟩)]
+      [(3, ⟨.i16, [0, 0]⟩), (0, ⟨.f32, [0, 0]⟩)] [0, 1], .merge 2 4, .initTrial 2 ⟨[], none, some (3, [1, 3, 2, 4, 0]), []⟩,
+      .evaluate [(8, ⟨.f64, [1, 1, 1, 1, 1]⟩)]]
+    g.st.conts.map (·.len) = [3, 3, 5, 2, 2, 5] ∧ g.roles.events = some 5 ∧
+    (viewAt g.st 5).toOption.map (·.cols.lookup 3) = some (some ⟨.i16, [1, 2, 2, 3, 3]⟩) ∧
+    viewAt g.st 0 = viewAt C07.demoG.st 0 ∧ viewAt g.st 1 = viewAt C07.demoG.st 1 := by decide
